@@ -262,6 +262,57 @@ func runC13(r *Run) {
 	r.Rule("C13.4", "merge flags: every edge that rejects a signature (failed Verify/AddSignature, bad key id, mismatch) clears AllValidSignatures before continuing; IncreasedSignatures is set from a before/after cardinality comparison or on a successful add")
 	mergeFlags(r)
 
+	// ---------- C13.6 double-sign detection over per-block signer sets
+	r.Rule("C13.6", "Simple scheme ValidateFinalizedProof: every per-message signer set is intersected with the running union of all sets seen so far (any overlap => not unique) and then added to that union")
+	if fn := w.Fn("gcrypto.SimpleCommonMessageSignatureProofScheme.ValidateFinalizedProof"); fn != nil {
+		a := w.A(fn)
+		var union, inter, anyc []ssa.Instruction
+		for _, c := range a.CallsTo("bitset.BitSet.InPlaceUnion") {
+			if strings.HasPrefix(a.sh.Of(CallArg(c, 1)).String(), "rv(") && inMapRangeLoop(c) {
+				union = append(union, c)
+			}
+		}
+		for _, c := range a.CallsTo("bitset.BitSet.InPlaceIntersection", "bitset.BitSet.IntersectionCardinality", "bitset.BitSet.Intersection") {
+			if strings.HasPrefix(a.sh.Of(CallArg(c, 1)).String(), "rv(") && inMapRangeLoop(c) {
+				inter = append(inter, c)
+			}
+		}
+		anyc = a.CallsTo("bitset.BitSet.Any")
+		ok := len(union) == 1 && len(inter) == 1 && len(anyc) >= 1
+		det := fmt.Sprintf("union-accumulations in the loop over signer sets: %d, intersections: %d, overlap tests: %d", len(union), len(inter), len(anyc))
+		if ok {
+			// the set intersected is a copy of the union accumulator, taken in the same iteration before the union is extended
+			accu := a.sh.Of(CallArg(union[0], 0)).String()
+			copies := a.CallsTo("bitset.BitSet.CopyFull")
+			okCopy := false
+			for _, cp := range copies {
+				if a.sh.Of(CallArg(cp, 0)).String() == accu && a.sh.Of(CallArg(cp, 1)).String() == a.sh.Of(CallArg(inter[0], 0)).String() && Dominates(cp, inter[0]) {
+					okCopy = true
+				}
+			}
+			// both range over the same map of result sets, which is what is returned
+			sameMap := a.sh.Of(CallArg(union[0], 1)).String() == a.sh.Of(CallArg(inter[0], 1)).String()
+			ok = okCopy && sameMap && Dominates(inter[0], union[0])
+			det += fmt.Sprintf("; accumulator %s copied before intersecting: %v; same range: %v", accu, okCopy, sameMap)
+			// overlap => returns false
+			e, _ := a.IfEdgesB("@bitset.BitSet.Any($s)", true, Bind{"$s": a.sh.Of(CallArg(inter[0], 0))}, nil)
+			okRet := false
+			for _, ed := range e {
+				blk := ed.From.Succs[ed.Succ]
+				for _, in := range blk.Instrs {
+					if ret, isRet := in.(*ssa.Return); isRet && a.sh.Of(ret.Results[1]).String() == "false" {
+						okRet = true
+					}
+				}
+			}
+			ok = ok && okRet
+			det += fmt.Sprintf("; overlap returns not-unique: %v", okRet)
+		}
+		r.Check(ok, "C13.6", FuncName(fn), w.Pos(fn.Pos()), det)
+	} else {
+		r.Fail("C13.6", "ValidateFinalizedProof", "", "function not found")
+	}
+
 	// ---------- C13.5 finalizer
 	r.Rule("C13.5", "CommitProofFinalizer.Finalize tests AllValidSignatures and IncreasedSignatures of every merge it performs")
 	if fn := w.Fn("tsi.CommitProofFinalizer.Finalize"); fn == nil {
